@@ -26,6 +26,7 @@ MISSEQ_RE = re.compile(r'^<<"MISMATCHSEQ", (\d+), "(\w+)", "(\w+)", "(.*)">>$')
 SEQLAW_RE = re.compile(r'^<<"SEQLAW", (\d+), "(\w+)", "([\w-]+)">>$')
 SPECSEQLAW_RE = re.compile(r'^<<"SEQLAW", "spec", "([\w-]+)", (.*)>>$')
 UNSPEC_RE = re.compile(r'^<<"UNSPEC", (\d+)>>$')
+LOCK = threading.Lock()
 
 
 def parallel_tlc(cx, spec, env, paths, prefix):
@@ -172,20 +173,21 @@ def conform_leg(cx, drv, leg, nseq, stats, failures):
         vals = [leg.key(x) for x in ([c["a"], c["b"]] if c["k"] == "pair" else [c["a"]] if c["k"] == "un" else c["xs"])]
         failures.append({"leg": leg, "sig": items[0][0], "detail": "%s: %s" % (describe_case(leg, c), "; ".join(d for _, d in items[:6])),
                          "ids": [cid], "by_id": by_id, "values": vals})
-    if leg.name == "U":
-        stats["antecedents"] = antecedents(leg, obs_path)
-    kinds = {}
-    for c in cases:
-        kinds[c["k"]] = kinds.get(c["k"], 0) + 1
-    stats["pairs"] += kinds.get("pair", 0)
-    stats["values"] += kinds.get("un", 0)
-    stats["seqs"] += kinds.get("seq", 0)
-    stats["seqs_unspecified"] += len(unspec)
-    stats["seqs_sorted_ok"] += sum(1 for c in cases if c["k"] == "seq" and c["api"]["sorted"]["ok"] == 1 and len(c["xs"]) >= 2)
-    stats["conforming"] += len(cases) - len(bad)
-    for c in cases:
-        if c["k"] == "pair" and c["a"] != c["b"]:
-            stats["distinct_pairs"].add((leg.key(c["a"]), leg.key(c["b"])))
+    with LOCK:
+        if leg.name == "U":
+            stats["antecedents"] = antecedents(leg, obs_path)
+        kinds = {}
+        for c in cases:
+            kinds[c["k"]] = kinds.get(c["k"], 0) + 1
+        stats["pairs"] += kinds.get("pair", 0)
+        stats["values"] += kinds.get("un", 0)
+        stats["seqs"] += kinds.get("seq", 0)
+        stats["seqs_unspecified"] += len(unspec)
+        stats["seqs_sorted_ok"] += sum(1 for c in cases if c["k"] == "seq" and c["api"]["sorted"]["ok"] == 1 and len(c["xs"]) >= 2)
+        stats["conforming"] += len(cases) - len(bad)
+        for c in cases:
+            if c["k"] == "pair" and c["a"] != c["b"]:
+                stats["distinct_pairs"].add((leg.key(c["a"]), leg.key(c["b"])))
     return cases
 
 
@@ -292,7 +294,9 @@ def run(cx):
     for f in failures:
         kf = None
         for k in known:
-            if re.search(k["witness"]["match"], f["sig"]):
+            # a C15 finding carries witness = {"match": regex over the failure signature, "values": [keys]}
+            pat = k.get("witness", {}).get("match")
+            if pat and re.search(pat, f["sig"]):
                 kf = k
         if kf is not None:
             if set(kf["witness"].get("values", [])) <= set(f["values"]) and f["leg"].name == "U":
